@@ -55,3 +55,21 @@ Definition rp_join_channels (r : N) : list N :=
   | 7 => [865062500; 865402500; 865985000] | _ => []
   end.
 
+(* the LoRa data rates: (spreading factor, bandwidth index 7 = 125 kHz / 8 = 250 kHz / 9 = 500 kHz, maximum MACPayload size M) per region,
+   RP002 "maximum payload size" tables for end-devices that never operate behind a repeater and without dwell-time limitation; None = RFU,
+   FSK or LR-FHSS *)
+Definition rp_datarate (r dr : N) : option (N * N * N) :=
+  match r with
+  | 8 => match dr with 0 => Some (10, 7, 19) | 1 => Some (9, 7, 61) | 2 => Some (8, 7, 133) | 3 => Some (7, 7, 250) | 4 => Some (8, 9, 250)
+                     | 8 => Some (12, 9, 61) | 9 => Some (11, 9, 137) | 10 => Some (10, 9, 250) | 11 => Some (9, 9, 250)
+                     | 12 => Some (8, 9, 250) | 13 => Some (7, 9, 250) | _ => None end
+  | 4 => match dr with 0 => Some (12, 7, 59) | 1 => Some (11, 7, 59) | 2 => Some (10, 7, 59) | 3 => Some (9, 7, 123) | 4 => Some (8, 7, 250)
+                     | 5 => Some (7, 7, 250) | 6 => Some (8, 9, 250)
+                     | 8 => Some (12, 9, 61) | 9 => Some (11, 9, 137) | 10 => Some (10, 9, 250) | 11 => Some (9, 9, 250)
+                     | 12 => Some (8, 9, 250) | 13 => Some (7, 9, 250) | _ => None end
+  | 5 | 6 | 7 => match dr with 0 => Some (12, 7, 59) | 1 => Some (11, 7, 59) | 2 => Some (10, 7, 59) | 3 => Some (9, 7, 123) | 4 => Some (8, 7, 250)
+                             | 5 => Some (7, 7, 250) | 6 => if r =? 7 then None else Some (7, 8, 250) | _ => None end
+  | _ => match dr with 0 => Some (12, 7, 59) | 1 => Some (11, 7, 59) | 2 => Some (10, 7, 123) | 3 => Some (9, 7, 123) | 4 => Some (8, 7, 250)
+                     | 5 => Some (7, 7, 250) | 6 => Some (7, 8, 250) | _ => None end
+  end.
+
